@@ -26,10 +26,13 @@ func runC15(c *core.Ctx) {
 	h.confinement("C15.2 confinement")
 	c.Clause("C15.3 nil-able log views: leader.removeLTE never falls behind PrevIndex (E4)")
 	h.viewLowerBound("C15.3 view-lower-bound")
+	h.leaderInitEstablishes("C15.3b view-lower-bound", "leader.removeLTE")
 	c.Clause("C15.4 every task is answered or handed to a holder that is drained (E7)")
 	h.taskTypestate("C15.4 task-typestate")
 	h.transferReplyMeaning("C15.4b transfer-state")
 	h.replyRPCCompletes("C15.4c rpc-completion")
+	h.leaderReleaseCleansUp("C15.4d leadership-end", "queue", "closed-error", "update-channel")
+	h.queueDiscipline("C15.4e client-queue")
 	c.Clause("C15.5 shutdown can make progress: ordering of Serve's epilogue, single closer of Raft.close")
 	h.shutdownOrder("C15.5 shutdown")
 	c.Clause("C15.6 panic conversion routes through recoverErr")
